@@ -162,12 +162,12 @@ prop('C12',
      claim='Verus, unbounded: parse_ttl (whole function) accepts exactly the keywords, head:N with N parsed as a u32 and N >= 1, and '
            'time:N with N parsed as a u64 of milliseconds; the TTL serializers print duration.as_millis() and the parsers build '
            'Duration::from_millis, so every ms-granular TTL / heartbeat round-trips numerically; ReadOptions::to_query_string sends '
-           'every non-default option under the field name the server parser reads (tail also without follow). What std integer '
+           'every non-default option under the field name the server parser reads (tail also without follow); the decoder of `follow=` reads a decimal number as a heartbeat of that many milliseconds, the words "", yes, true as follow and false, no as off, and REFUSES everything else; the decoder of `tail=` reads false / no / 0 as off and everything else as on. What std integer '
            'parsing / Display and the url / serde_urlencoded crates do with the text is assumed.',
      technique=TECH,
      units=['verus:expiry', 'verus:codec_ops'],
      obligations=['expiry.ttl.*', 'expiry.follow.*', 'expiry.ttl_*.body', 'expiry.parse_ttl_time_ctor.body', 'expiry.follow_*.body',
-                  'codec.parse_ttl.*', 'codec.to_query_string.*', 'codec_ops.*.body'],
+                  'codec.parse_ttl.*', 'codec.to_query_string.*', 'codec.follow.*', 'codec.tail.*', 'codec_ops.*.body'],
      trusted=['extraction', 'duration', 'overflow'],
      explanation='Slices: the argument expressions of the serializer format!s and the constructor expressions of the parsers.',
      not_decided='Frame/meta JSON via serde, serde_urlencoded, nu value conversion; symbolic text round trip')
